@@ -3,7 +3,8 @@ proof: coq/Props/C17.v over coq/Discover/Naming.v, Run.v;
 tie:   Go probe / newDiscoveredDevice / autoDiscover driven against scripted loopback readers
        (harness/driver/c17_test.go) vs the extracted model (oracle/c17); the documented rule is
        evaluated on Go's output directly (spec_name below is written independently of the model)."""
-import json, random
+import json, random, re
+from concurrent.futures import ThreadPoolExecutor
 import vlib
 
 PID = "C17"
@@ -240,6 +241,12 @@ def scenarios(rnd, thorough):
         if order == "reversed":
             D.reverse()
         out.append(Scenario(k, H, D, 4, PROBE_TIMEOUT_MS, gen_budget, gen_budget, "sets"))
+    # fixed: readers with very short ids (0..3 bytes, both id types) found by a whole run
+    k += 1
+    H = [mk_host(k, i, "correct", rnd) for i in range(1, 7)]
+    for h, (t, rid) in zip(H, [(0, b""), (0, bytes([k])), (0, bytes([k, 2])), (0, bytes([k, 3, 4])), (1, bytes([k, 5])), (1, bytes([k, 7, 8]))]):
+        h["t"], h["rid"] = t, rid
+    out.append(Scenario(k, H, [], 3, PROBE_TIMEOUT_MS, gen_budget, gen_budget, "sets"))
     fast = ["refuse", "correct", "correct", "correct", "correct", "garbage", "garbage-close", "close", "noident", "config-error",
             "hello-refused", "correct-v11", "correct-errver"]
     for _ in range(60 if thorough else 12):
@@ -354,6 +361,61 @@ def parse_run(line):
     return dict(status=f[0], elapsed=int(f[1]), reported=rep, accepts=acc, other=oth, updated=d.get("updated", ""), released=d.get("released"))
 
 
+# ------------------------------------------------------------------ supervised execution
+def crash_reason(log):
+    """first panic / fatal line of a died test process plus the first frame inside the repository"""
+    m = re.search(r"^(panic: .*|fatal error: .*)$", log, re.M)
+    why = m.group(1).strip() if m else ("timeout" if "[timeout after" in log or "test timed out" in log else "process died")
+    fr = re.search(r"(internal/driver/[a-z_]+\.go:\d+)", log[m.end():] if m else log)
+    return (why + (" at " + fr.group(1) if fr else ""))[:300]
+
+
+def run_supervised(exe, go_reqs, timeout):
+    """Runs all requests in one harness process. If that process dies (a panic in a goroutine spawned by the code under
+    test cannot be recovered by the harness) or hangs, the requests are re-run in supervised child processes: the naming
+    grid by bisection, every timed probe/run/discover request in a process of its own; the request whose process dies
+    gets the answer 'crashed <reason>'. Returns (answers, first log)."""
+    rc, lines, log = vlib.run_harness(exe, "TestVerifC17", "\n".join(go_reqs) + "\n", timeout=timeout)
+    if rc == 0 and len(lines) == len(go_reqs):
+        return lines, log, False
+    answers = [None] * len(go_reqs)
+    counter = [0]
+
+    def attempt(idx, tmo):
+        counter[0] += 1
+        rc, ls, lg = vlib.run_harness(exe, "TestVerifC17", "\n".join(go_reqs[i] for i in idx) + "\n", timeout=tmo,
+                                      tag="_sup%d" % counter[0])
+        return (rc == 0 and len(ls) == len(idx)), ls, lg
+
+    def bisect(idx):
+        if not idx:
+            return
+        ok, ls, lg = attempt(idx, 120)
+        if ok:
+            for i, l in zip(idx, ls):
+                answers[i] = l
+        elif len(idx) == 1:
+            answers[idx[0]] = "crashed " + crash_reason(lg)
+        else:
+            bisect(idx[:len(idx) // 2])
+            bisect(idx[len(idx) // 2:])
+
+    names = [i for i, r in enumerate(go_reqs) if r.startswith("name ")]
+    bisect(names)
+    single = [i for i, r in enumerate(go_reqs) if not r.startswith("name ")]
+
+    def one(i):
+        counter[0] += 1
+        rc, ls, lg = vlib.run_harness(exe, "TestVerifC17", go_reqs[i] + "\n", timeout=150, tag="_one%d" % i)
+        return i, (ls[0] if rc == 0 and len(ls) == 1 else "crashed " + crash_reason(lg))
+
+    # discover requests set the one global configuration: still fine, each has a process of its own
+    with ThreadPoolExecutor(max_workers=8) as ex:
+        for i, a in ex.map(one, single):
+            answers[i] = a
+    return answers, log, True
+
+
 # ------------------------------------------------------------------ the check
 def run(tier, seed, replay=None):
     res = vlib.Result(PID, tier, seed)
@@ -409,7 +471,10 @@ def run(tier, seed, replay=None):
             orc_reqs.append("run 1000 %d %s %d P 1 D 0 H 1 1 %s 25882 2001002 0 001625123456 W 1 1 1" % (PROBE_TIMEOUT_MS, rd, SEND_TIMEOUT_MS, beh))
 
     longest = max([probe_budget] + [s.budget_ms for s in scens] + [sum(d.budget_ms + 45000 for d in dscens)]) / 1000.0
-    rc, go_lines, glog = vlib.run_harness(exe, "TestVerifC17", "\n".join(go_reqs) + "\n", timeout=int(longest + 240))
+    go_lines, glog, supervised = run_supervised(exe, go_reqs, int(longest + 240))
+    rc = 0
+    if supervised:
+        res.notes.append("the harness process died or hung on the whole batch (%s); requests were re-run in supervised child processes" % crash_reason(glog))
     orc, oout = vlib.run_oracle("c17", "\n".join(orc_reqs) + "\n", timeout=600)
     olines = oout.split("\n")
     if rc != 0 or len(go_lines) != len(go_reqs):
@@ -438,6 +503,11 @@ def run(tier, seed, replay=None):
         rd = dict(kind="naming", naming=[[v, m, t, hx(r), hx(fw), caps, ident, mode]], observed=g[:600], model=o[:600])
         if len(samples) < 5 and shape != "other-type" and gi % 97 == 1:
             samples.append(dict(request=go_reqs[gi - 1], go=g, model=o))
+        if g.startswith("panic ") or g.startswith("crashed "):
+            res.violation("probe-panics:%d/%d" % (t, len(r)),
+                          "probe() %s while naming a reader with vendor=%d model=%d idType=%d readerID=%s (%d bytes), host script '%s': %s" % (
+                              "panicked" if g.startswith("panic ") else "killed the process", v, m, t, hx(r), len(r), mode, g.split(" ", 1)[1]), rd)
+            continue
         if g.startswith("harness-error") or g == "blocked":
             res.violation("harness-run", "naming case did not complete: %s -> %s" % (go_reqs[gi - 1], g), rd, False)
             continue
@@ -496,7 +566,10 @@ def run(tier, seed, replay=None):
         probe_obs[mode] = g
         rd = dict(kind="probe", probes=[[mode, beh, want]], probe_budget_ms=probe_budget, observed=g)
         f = g.split()
-        if f[0] == "harness-error":
+        if f[0] in ("panic", "crashed"):
+            res.violation("probe-panics:host=" + mode, "probe() against a host behaving as '%s' %s: %s" % (
+                mode, "panicked" if f[0] == "panic" else "killed the process", g.split(" ", 1)[1]), rd)
+        elif f[0] == "harness-error":
             res.violation("harness-run", "probe scenario did not start: " + g, rd, False)
         elif f[0] == "blocked":
             blocked_modes.append(mode)
@@ -525,6 +598,10 @@ def run(tier, seed, replay=None):
         rd = dict(kind="run", scenarios=[s.to_json()], observed=g, model=o_some)
         if len(samples) < 11 and s.kind == "sets":
             samples.append(dict(request=s.go_req(), go=g, model=o_some))
+        if g.startswith("crashed "):
+            res.violation("run-panics", "autoDiscover on %s killed the process: %s; hosts: %s" % (s.net, g.split(" ", 1)[1], "; ".join(
+                "%s %s vendor=%d model=%d idType=%d readerID=%s" % (h["ip"], h["mode"], h["v"], h["m"], h["t"], hx(h["rid"])) for h in s.hosts)), rd)
+            continue
         if g.startswith("harness-error"):
             res.violation("harness-run", "run scenario did not start: " + g, rd, False)
             continue
@@ -590,6 +667,9 @@ def run(tier, seed, replay=None):
         rd = dict(kind="discover", discover=[ds.to_json()], observed=g)
         if len(samples) < 14:
             samples.append(dict(request=ds.go_req(), go=g))
+        if g.startswith("crashed "):
+            res.violation("run-panics", "Driver.Discover (%s) killed the process: %s" % (ds.go_req(), g.split(" ", 1)[1]), rd)
+            continue
         if g.startswith("harness-error"):
             res.violation("harness-run", "discover scenario did not start: " + g, rd, False)
             continue
